@@ -11,6 +11,9 @@ TRACE  (1) every string '$' + w, w over a 27-symbol alphabet (one representative
        (3) single-edit neighbours (delete, insert, substitute, transpose over the
            alphabet) of valid queries (seed list, repository test queries,
            generated queries): all of them for the seed list, seeded otherwise;
+       (4) GEN: every text prefix u1..un suffix, n <= 3 (quick) / 5 (thorough), over
+           five families of units (tokens and fragments) and templates, enumerated
+           by TLC (MC_Parser.tla) - "every short token sequence";
        each compile() outcome is validated by TLC: a text outside the (lax)
        grammar must raise a JSONPathError.
 """
@@ -61,6 +64,14 @@ def run(chk: core.Check, tier: str, seed: int) -> None:
         nb = gen.neighbours(s, rng, 25 if tier == "quick" else 120)
         texts += nb
         n_nb += len(nb)
+    # (4) GEN: every text  prefix u1..un suffix  over five families of units (MC_Parser.tla, where TLC also checks
+    #     T15: the implementation-shaped lexer + Pratt parser of Parser.tla rejects what the grammar rejects)
+    from .. import parserconf  # noqa: PLC0415
+    ugens, uruns = parserconf.unit_texts(tier, "c04_units")
+    for label, res in uruns:
+        chk.add_tlc(label, res)
+    texts += [core.dec_text(g["q"]) for g in ugens]
+    chk.notes["unit_texts"] = len(ugens)
     texts = list(dict.fromkeys(texts))
     t1 = list(gen.short_strings(ALPHA, 2)) + rng.sample(texts, 1200 if tier == "quick" else 30000)
     common.t1_check(chk, [t for t in t1 if len(t) <= 60], "c04_t1")
@@ -78,7 +89,7 @@ def run(chk: core.Check, tier: str, seed: int) -> None:
     chk.exhaustive = False
     chk.rule = (
         f"{n_short} strings '$'+w over {len(ALPHA)} symbols with |w|<={n} (complete), {n_seq} seeded lexeme sequences (<=9 of "
-        f"{len(LEXEMES)} lexemes), {n_nb} single-edit neighbours of {len(seeds)}+ valid queries; distinct = distinct text "
+        f"{len(LEXEMES)} lexemes), {len(ugens)} unit texts enumerated by TLC (MC_Parser.tla), {n_nb} single-edit neighbours of {len(seeds)}+ valid queries; distinct = distinct text "
         f"({len(texts)})"
     )
     chk.assumptions = ["RFC 9535 Appendix A transcribed as Syntax.tla (cross-checked against the ABNF held as data, T1); "
